@@ -178,19 +178,66 @@ def rational_diff(n, d, name):
     return sub(mul(diff(n, name), d), mul(n, diff(d, name))), mul(d, d)
 
 
-def same_function(r1, r2, rel_tol=None):
-    """r = (num, den).  Exact comparison when rel_tol is None; otherwise coefficients of the
-    cross-multiplied difference are compared relative to the largest coefficient of either side."""
+def absolute(p):
+    return {m: abs(c) for m, c in p.items()}
+
+
+def to_rational_abs(s):
+    """(num, den) of the same recursion with every coefficient replaced by its absolute value and
+    every subtraction by an addition: a monomial-wise bound on the magnitudes *before cancellation*,
+    i.e. the scale against which rounding of folded constants has to be measured."""
+    k = s[0]
+    if k == "Constant":
+        return const(abs(Fraction(s[1]))), const(1)
+    if k == "Variable":
+        return var(s[1]), const(1)
+    kids = [to_rational_abs(c) for c in S.children(s)]
+    if k in ("Add", "Minus"):
+        n, d = const(0), const(1)
+        for (a, b) in kids:
+            n, d = _radd(n, d, a, b)
+        return n, d
+    if k == "Negation":
+        return kids[0]
+    if k == "Multiply":
+        n, d = const(1), const(1)
+        for (a, b) in kids:
+            n, d = mul(n, a), mul(d, b)
+        return n, d
+    if k == "Divide":
+        (a, b), (c, e) = kids
+        return mul(a, e), mul(b, c)
+    if k == "Reciprocal":
+        a, b = kids[0]
+        return b, a
+    n_ = S.int_n(s[2])
+    if n_ > 12:
+        raise TooBig
+    return power(kids[0][0], n_), power(kids[0][1], n_)
+
+
+def rational_diff_abs(n, d, name):
+    return add(mul(absolute(diff(n, name)), d), mul(n, absolute(diff(d, name)))), mul(d, d)
+
+
+def same_function(r1, r2, abs1=None, abs2=None, rel_tol=None):
+    """r = (num, den).  Exact comparison of num1*den2 with num2*den1; when they differ and abs1/abs2
+    (pre-cancellation magnitude bounds) are given, every coefficient of the difference is compared
+    with rel_tol times the corresponding coefficient of the bound."""
     (a, b), (c, d) = r1, r2
     lhs = mul(a, d)
     rhs = mul(c, b)
     diff_ = sub(lhs, rhs)
     if not diff_:
         return True, 0.0
-    scale = max([abs(x) for x in lhs.values()] + [abs(x) for x in rhs.values()] + [Fraction(0)])
-    if scale == 0:
+    if abs1 is None or abs2 is None or rel_tol is None:
         return False, float("inf")
-    worst = max(abs(x) for x in diff_.values()) / scale
-    if rel_tol is not None and worst <= rel_tol:
-        return True, float(worst)
-    return False, float(worst)
+    (aa, ba), (ca, da) = abs1, abs2
+    bound = add(mul(aa, da), mul(ca, ba))
+    worst = Fraction(0)
+    for m, coef in diff_.items():
+        bnd = bound.get(m, 0)
+        if bnd == 0:
+            return False, float("inf")
+        worst = max(worst, abs(coef) / bnd)
+    return worst <= rel_tol, float(worst)
